@@ -26,7 +26,7 @@ ASSUMPTIONS = [
     "Client(parse_list_line_custom=None, encoding='utf-8'), i.e. the defaults",
     "non-ASCII case mapping of MLSx fact keys is not modelled (lines with such keys are compared on the path only)",
 ]
-GENERATED_OBLIGATIONS = ["Client.listChainCaught", "Client.listChainParsers"]
+GENERATED_OBLIGATIONS = ["Client.listChainCaught", "Client.listChainParsers", "Client.listTypeLookupRaises (how Client.list reads the type fact)", "Server.replyWriterFinishesInFinally / replyWriterDrainsOnFailure / replySkipsDeadWriter (response_writer and connection.response: join_cannot_hang)"]
 TRUSTED_EXTRA = ["translator harness/extract_client.py (exception tuple and parser order of parse_list_line)"]
 
 
@@ -49,6 +49,14 @@ def search(ctx, prior):
 
 
 def replay(ctx, doc):
+    if doc["failure"]["input"].get("family") == "overlong-line":
+        r = Result()
+        c19_parsers.overlong_cases(ctx, r)
+        want = doc["failure"]["input"]
+        hit = [f for f in r.oracle_failures if all(f["input"].get(k) == want.get(k) for k in ("kind", "position", "length"))]
+        for f in hit:
+            print("implementation:", f["what"])
+        return bool(hit)
     if doc["failure"]["input"].get("kind") == "control-bytes":
         from . import c19_server
 
